@@ -35,7 +35,7 @@ You MUST verify yourself: (1) with the patch the suite passes and demo fails; (2
 {hint}""".format(wt=wt, hint=hint, extra=(" Assume a diligent reviewer will also run a few thousand randomised tests that compare the library with a straightforward reference "
     "implementation on random operation sequences and random (also malformed) protocol conversations: your change must survive THAT - it should need a rare coincidence "
     "(a specific 32-bit value, an exact count, a particular order of three or more events, a long history, a rare interleaving, a second fault while handling the first) "
-    "that such testing is unlikely to hit, yet be reachable for an attacker or an unlucky operator." if ROUND == "3" else ""))
+    "that such testing is unlikely to hit, yet be reachable for an attacker or an unlucky operator." if ROUND in ("3", "4") else ""))
 for i in ids:
     p = props[i]
     txt += "PROPERTY %s: %s\n%s\n(quantifier: %s)\n\n" % (i, p["title"], p["statement"], p["quantifier"]["text"])
